@@ -629,6 +629,91 @@ def check_bare_key_children(run: Run, rule: str = "R01.8") -> None:
         raise AnalysisError("no Assignment(key=\"\") construction found in the parser (bare literal-zone children): anchor moved")
 
 
+# ======================================================================================= R01.9
+def check_envelope_name_sources(run: Run, rule: str = "R01.9") -> None:
+    """the envelope line ===NAME=== is written from Document.name verbatim: NAME must be in the reader's envelope language"""
+    import re as _re
+
+    run.rule(rule, "a document name set outside the parser is readable as an envelope: every Document(name=E) / <doc>.name = E in the tools, CLI, sealer and projector takes E from another document's .name, from a constant, or from a capture group of a constant regex whose group is the lexer's envelope-name pattern - or is guarded by a full match of that pattern; str.isidentifier() / isalnum() are not such guards (they admit non-ASCII letters the ENVELOPE_START token does not)", 3)
+    lx = run.project.mod("core.lexer")
+    pats = [p for p, t in _token_patterns(run, lx) if t == "ENVELOPE_START"]
+    if len(pats) != 1:
+        raise AnalysisError("lexer: ENVELOPE_START pattern not found")
+    m = _re.fullmatch(r"===\((.+)\)===", pats[0])
+    if not m:
+        raise AnalysisError(f"lexer: ENVELOPE_START pattern {pats[0]!r} is not ===(<name>)===")
+    name_pat = m.group(1)
+    name_re = _re.compile(name_pat)
+    n = 0
+    for mod in run.project.modules.values():
+        if mod.name.endswith("core.parser") or mod.name.endswith("core.lexer") or mod.name.endswith("core.ast_nodes"):
+            continue
+        for fi in mod.functions.values():
+            sites: list[tuple[ast.AST, ast.AST]] = []
+            for c in walk_no_nested(fi.node):
+                if isinstance(c, ast.Call) and isinstance(c.func, ast.Name) and c.func.id == "Document":
+                    v = next((k.value for k in c.keywords if k.arg == "name"), c.args[0] if c.args else None)
+                    if v is not None:
+                        sites.append((c, v))
+                if isinstance(c, ast.Assign) and len(c.targets) == 1 and isinstance(c.targets[0], ast.Attribute) and c.targets[0].attr == "name" and isinstance(c.targets[0].value, ast.Name) and c.targets[0].value.id in ("doc", "document", "new_doc", "result_doc", "sealed", "projected"):
+                    sites.append((c, c.value))
+            if not sites:
+                continue
+            from ..cfg import CFG, atomic_conditions
+
+            cfg = CFG(fi.node)
+
+            def ok_source(e: ast.AST, holder: int | None, depth: int = 0) -> bool:
+                if isinstance(e, ast.Constant):
+                    return isinstance(e.value, str) and bool(name_re.fullmatch(e.value))
+                if isinstance(e, ast.Attribute) and e.attr == "name":
+                    return True  # another document's name
+                if isinstance(e, ast.IfExp):
+                    return ok_source(e.body, holder, depth + 1) and ok_source(e.orelse, holder, depth + 1)
+                if isinstance(e, ast.Call) and isinstance(e.func, ast.Attribute) and e.func.attr == "group" and isinstance(e.func.value, ast.Name) and len(e.args) == 1 and isinstance(e.args[0], ast.Constant):
+                    mdefs = [a.value for a in walk_no_nested(fi.node) if isinstance(a, ast.Assign) and any(isinstance(t, ast.Name) and t.id == e.func.value.id for t in a.targets)]
+                    for d in mdefs:
+                        if not (isinstance(d, ast.Call) and ast.unparse(d.func) in ("re.search", "re.match", "re.fullmatch") and d.args):
+                            return False
+                        pat = run.project.try_fold(mod, d.args[0])
+                        if not isinstance(pat, str) or f"({name_pat})" not in pat:
+                            return False
+                    return bool(mdefs)
+                if isinstance(e, ast.Name) and depth < 3:
+                    # guarded by a full match of the envelope-name pattern
+                    if holder is not None:
+                        for t, val in atomic_conditions(cfg, holder):
+                            if val and isinstance(t, ast.Call) and ast.unparse(t.func) in ("re.fullmatch", "re.match") and len(t.args) == 2 and isinstance(t.args[1], ast.Name) and t.args[1].id == e.id:
+                                pat = run.project.try_fold(mod, t.args[0])
+                                if isinstance(pat, str) and pat.strip("^$").rstrip("\\Z") == name_pat and (ast.unparse(t.func) == "re.fullmatch" or pat.endswith(("$", "\\Z"))):
+                                    return True
+                    defs = [a.value for a in walk_no_nested(fi.node) if isinstance(a, ast.Assign) and any(isinstance(t, ast.Name) and t.id == e.id for t in a.targets)]
+                    params = {a.arg for a in fi.node.args.args}  # type: ignore[attr-defined]
+                    return bool(defs) and e.id not in params and all(ok_source(d, holder, depth + 1) for d in defs)
+                return False
+
+            for site, v in sites:
+                holder = next((nd.id for nd in cfg.nodes if nd.ast is not None and nd.kind == "stmt" and any(x is site for x in ast.walk(nd.ast))), None)
+                ok = ok_source(v, holder)
+                n += 1
+                run.instance(rule, mod.loc(site), f"{fi.qualname}: document name <- `{_text(v)[:50]}`", ok=ok)
+                if not ok:
+                    run.violation(rule, mod, fi.qualname, site, f"the document name is set from `{_text(v)[:60]}`, which is not known to match the lexer's envelope name pattern {name_pat!r} (a guard such as str.isidentifier() also admits non-ASCII letters): emit() writes it verbatim as ===NAME===, and the reader refuses that line - the canonical text the tool returns or writes cannot be read again")
+    if n == 0:
+        raise AnalysisError("no Document(name=...) / <doc>.name = ... outside the parser found (sealer copies, octave_write salvage): anchor moved")
+
+
+def _token_patterns(run: Run, lx) -> list[tuple[str, str]]:
+    node = lx.const_node("TOKEN_PATTERNS")
+    out = []
+    for el in getattr(node, "elts", []):
+        if isinstance(el, ast.Tuple) and len(el.elts) == 2:
+            p = run.project.try_fold(lx, el.elts[0])
+            if isinstance(p, str):
+                out.append((p, ast.unparse(el.elts[1]).split(".")[-1]))
+    return out
+
+
 # ======================================================================================= R01.7
 VERBATIM_NAME_FIELDS = {"Section": ["key", "section_id"], "Block": ["key"], "Assignment": ["key"], "Document": ["name"]}
 
@@ -696,4 +781,5 @@ def check(run: Run) -> None:
     check_trailing_comment(run)
     check_name_fields(run)
     check_bare_key_children(run)
+    check_envelope_name_sources(run)
     run.assume("emit(parse(emit(parse(x)))) == emit(parse(x)) itself, list-layout stability (_needs_multiline vs parse_list), indentation re-reading through INDENT tokens and comment placement other than the assignment trailing comment are not decided")
